@@ -6,6 +6,9 @@ CONSTANT Kinds = {"tm", "krum"}
 CONSTANT TSeeds = {5001, 5002}
 CONSTANT ManyM = {27, 40}
 CONSTANT ManySteps = 2
+CONSTANT HistM = {}
+CONSTANT HistLen = 0
+CONSTANT HistPats = {}
 SPECIFICATION Spec
 INVARIANT TypeOK
 INVARIANT RejectIsTerminal
